@@ -285,6 +285,10 @@ def run(tier, seed):
     # concrete failing input
     gen_tie.gate(chk, ['cancel_reason_rank', 'is_exceeded', 'event_to_cancel_reason', 'to_request', 'failed_count',
                        'runner_settings'], gate)
+    # DESIGN 11.2e: the OtherCancel arm of every wait loop of a unit is regenerated from the source and proved equal
+    # to the model's (ignored while running / terminating / draining, ends the retry delay)
+    import units_e2e
+    units_e2e.arms_gate(chk, PROP, gate)
     binary, err = vlib.build_harness()
     if binary is None:
         chk.violation("broken-obligation", "harness-build", dict(error=err), no_input=True)
